@@ -217,7 +217,7 @@ theorem zipIds_spec : ∀ (bs : List FStmt) (m : List (List Char × List Char)),
 
 theorem remapAll_spec (m : List (List Char × List Char)) : ∀ (bs res : List FStmt), remapAll m bs = some res →
     res.map (·.id) = bs.map (·.id) ∧ res.map (·.stmt) = bs.map (·.stmt) ∧
-    (∀ k (r b : FStmt), res[k]? = some r → bs[k]? = some b → remapDeps m b.deps = some r.deps)
+    (∀ (k : Nat) (r b : FStmt), res[k]? = some r → bs[k]? = some b → remapDeps m b.deps = some r.deps)
   | [], res, h => by simp [remapAll] at h; subst h; simp
   | b :: bs, res, h => by
     unfold remapAll at h
@@ -233,7 +233,7 @@ theorem remapAll_spec (m : List (List Char × List Char)) : ∀ (bs res : List F
     · cases h
 
 theorem remapDeps_spec (m : List (List Char × List Char)) : ∀ (ds res : List (List Char)), remapDeps m ds = some res →
-    res.length = ds.length ∧ ∀ k d r, ds[k]? = some d → res[k]? = some r → lookupId m d = some r
+    res.length = ds.length ∧ ∀ (k : Nat) (d r : List Char), ds[k]? = some d → res[k]? = some r → lookupId m d = some r
   | [], res, h => by simp [remapDeps] at h; subst h; simp
   | d :: ds, res, h => by
     unfold remapDeps at h
@@ -280,5 +280,61 @@ theorem fuse_some (pred : Name → Bool) (clash : List Name) (A B out : List FSt
       · rename_i B2 hb
         simp at h
         exact ⟨sub, m, B2, hs, hm, hb, h.symm⟩
+
+end Dagrt.Fuse
+
+namespace Dagrt.Fuse
+open Dagrt Dagrt.Sem Dagrt.Names
+
+theorem lookup_some_of_key : ∀ (sub : List (Name × Name)) (x : Name), (∃ q ∈ sub, q.1 = x) →
+    ∃ v, sub.lookup x = some v
+  | [], x, h => by obtain ⟨q, hq, _⟩ := h; simp at hq
+  | (k, v) :: ps, x, h => by
+    simp only [List.lookup]
+    by_cases hk : x = k
+    · subst hk; simp
+    · have : (x == k) = false := by simpa using hk
+      simp only [this]
+      apply lookup_some_of_key ps x
+      obtain ⟨q, hq, he⟩ := h
+      simp at hq
+      rcases hq with e | hq
+      · subst e; exact absurd he.symm hk
+      · exact ⟨q, hq, he⟩
+
+theorem lookup_pair_mem : ∀ (sub : List (Name × Name)) (x v : Name), sub.lookup x = some v → (x, v) ∈ sub
+  | [], x, v, h => by simp at h
+  | (k, w) :: ps, x, v, h => by
+    simp only [List.lookup] at h
+    by_cases hk : x = k
+    · subst hk; simp at h; subst h; simp
+    · have : (x == k) = false := by simpa using hk
+      simp only [this] at h
+      exact List.mem_cons_of_mem _ (lookup_pair_mem ps x v h)
+
+/-- every clashing name the predicate selects becomes a key of the substitution -/
+theorem disambiguate_keys (pred : Name → Bool) (x : Name) (hp : pred x = true) :
+    ∀ (cl : List Name) (g : Gen) (acc res : List (Name × Name)),
+      disambiguate pred cl g acc = some res → (x ∈ cl ∨ ∃ q ∈ acc, q.1 = x) → ∃ q ∈ res, q.1 = x
+  | [], g, acc, res, hd, hor => by simp [disambiguate] at hd; subst hd; simpa using hor
+  | c :: cs, g, acc, res, hd, hor => by
+    unfold disambiguate at hd
+    split at hd
+    · split at hd
+      · rename_i g2 n2 _
+        apply disambiguate_keys pred x hp cs _ _ _ hd
+        rcases hor with h' | ⟨q, hq, he'⟩
+        · simp at h'; rcases h' with e | h'
+          · right; exact ⟨(c, String.ofList n2), by simp, e.symm⟩
+          · left; exact h'
+        · right; exact ⟨q, by simp [hq], he'⟩
+      · cases hd
+    · rename_i hpc
+      apply disambiguate_keys pred x hp cs _ _ _ hd
+      rcases hor with h' | h'
+      · simp at h'; rcases h' with e | h'
+        · subst e; rw [hp] at hpc; exact absurd rfl hpc
+        · left; exact h'
+      · right; exact h'
 
 end Dagrt.Fuse
